@@ -23,6 +23,7 @@ type Profile struct {
 	ForkProb    float64 // per block: isolate one transaction's effect with a counterfactual fork
 	LongFrac    float64 // fraction of runs that last > 2000 blocks (bridge-deposit rounds have a 2000-block window)
 	TinyStakes  float64 // probability that plain accounts' genesis delegations are 1..5 whole tokens (small powers: exact half boundaries)
+	SdkSlash    float64 // probability that the SDK's downtime slashing burns a fraction (1 % or 5 %) instead of nothing
 }
 
 // Gen turns (seed, profile) into a genesis configuration and a stream of HeightPlans.
@@ -215,6 +216,10 @@ func (g *Gen) Genesis() *GenesisCfg {
 	cfg.GovVotingSec = Pick(r, []int64{30, 120, 600})
 	cfg.SignedBlocksWindow = Pick(r, []int64{10, 30, 100})
 	cfg.DowntimeJailSec = Pick(r, []int64{10, 60, 600})
+	if rs := NewRng(g.Seed, "sdk-slash"); rs.Chance(p.SdkSlash) {
+		// own stream: existing seeds keep generating what they generated
+		cfg.SlashDowntimePct = Pick(rs, []int64{1, 5})
+	}
 	cfg.SnapshotLimit = Pick(r, []uint64{1000, 1000, 10, 3, 1})
 	cfg.TeamAcct = r.Intn(na)
 	cfg.KeyringShipped = r.Chance(0.04)
